@@ -4,16 +4,31 @@
 //!
 //! 1. **Single-site tamper enumeration.** Small objects (sizes 0,1,c-1,c,c+1,2c+3 for chunk sizes
 //!    c in {1,7,16}) are written through the store by put / multipart / copy / rename, two keys
-//!    and two generations per key. For each such backend state EVERY single-site tamper of the
-//!    inner store is applied to a fork of the state (every bit of every object, every truncation,
-//!    extensions, chunk / payload / metadata swaps, re-pointing, replay, field stripping and
-//!    field transplants on the re-encoded CBOR) and a cold store instance with the same key runs
-//!    all read paths. Oracle: a read fails or returns exactly what was written for that key.
+//!    and two generations per key (the replaced generation is left on the backend as an
+//!    unreclaimed one). For each such backend state EVERY single-site tamper of the inner store is
+//!    applied to a fork of the state: every bit of every object, every truncation length,
+//!    extensions by 1..c bytes, chunk / payload / metadata swaps and transplants between keys and
+//!    generations, re-pointing (only the `g` field rewritten, seal kept), replay of the previous
+//!    document, stripping of every field alone and in the downgrade combinations, field
+//!    transplants and edits on the re-encoded CBOR, whole-byte substitutions (map header always,
+//!    every position in the thorough tier); plus the two-site class "seal removed, then one bit
+//!    flipped". A cold instance with the same key (for payload tampers also a warm one) runs all
+//!    read paths: get, bounded / offset / suffix ranges across chunk boundaries and into the
+//!    partial last chunk, get_ranges, head, the three listings, copy-then-read.
+//!    Oracle: a read fails or returns exactly what was written for that key (head / listings:
+//!    exactly the original size and token). Documented-mechanism oracle (own signatures
+//!    `C09/documented/..`): re-pointed documents, documents of another key and documents whose
+//!    seal is missing while `av`/`g` are present must be rejected on every read path, in strict
+//!    mode also every document without authentication fields. Counted, not asserted: whole-key
+//!    rollback to the previous committed version, and - in compatibility mode only - documents
+//!    that carry no authentication-era field at all (the documented downgrade window).
 //! 2. **Plaintext scan.** Everything that crosses the backend boundary (recorded by a spy
-//!    store: put payloads, multipart parts, incl. aborted uploads and failed commits) and
-//!    everything that persists is scanned for 8-byte windows of any plaintext and for a marker.
+//!    store: put payloads, multipart parts, incl. aborted / dropped uploads and failed commits)
+//!    and everything that persists is scanned for 8-byte windows of any plaintext and for a
+//!    marker. Plaintexts are random bytes, runs of one byte value and marker-carrying buffers.
 //! 3. **Nonce monitor.** The `verif` hook reports every (nonce, aad, plaintext) handed to the
-//!    cipher; the same nonce with a different input is a violation.
+//!    cipher; the same nonce with a different input is a violation. A dedicated workload drives
+//!    thousands of chunks per object through put and the multipart uploader's chunk counter.
 
 use anda_object_store::{EncryptedStore, EncryptedStoreBuilder};
 use async_trait::async_trait;
